@@ -390,7 +390,7 @@ def result_prepared(pv, query_id, bind_cols, pk_indexes, result_cols, result_met
 def schema_change_body(pv, change, target, keyspace, name=None, arg_types=None):
     """<change_type><target>[options] (v3+), <change_type><keyspace><table> (v1/v2)"""
     if pv < 3:
-        return w_string(change) + w_string(keyspace) + w_string(name or '')
+        return w_string(change) + w_string(keyspace) + w_string('' if target == 'KEYSPACE' else (name or ''))
     out = w_string(change) + w_string(target) + w_string(keyspace)
     if target != 'KEYSPACE':
         out += w_string(name)
